@@ -653,9 +653,9 @@ fn main() {
     ctx.assume("the reference fold (model.rs) is the meaning of the statement: state = fold of notifications since linked; local writes are not notifications; callbacks only when synced or events_when_not_synced");
     ctx.assume("for take/drop the statement fixes the state before and after the notification, not intermediate states: the reference accepts on_remove per entry in key order with the progressive or the final map, or on_clear when every entry goes; the differential part still requires client == hosted exactly");
     ctx.assume("key order of a map downlink = numeric order of the i32 keys (BTreeMap order = Recon Value order for Int32)");
-    let n_map = ctx.pick(240_000, 8_000_000);
-    let n_val = ctx.pick(100_000, 3_000_000);
-    let n_ill = ctx.pick(40_000, 1_500_000);
+    let n_map = ctx.pick(160_000, 8_000_000);
+    let n_val = ctx.pick(60_000, 3_000_000);
+    let n_ill = ctx.pick(30_000, 1_500_000);
     let max_ops = ctx.pick(40, 80);
     ctx.prop("map-legal", n_map, move || arb_case(Kind::Map, max_ops, true), check_legal);
     ctx.prop("value-legal", n_val, move || arb_case(Kind::Value, max_ops, true), check_legal);
